@@ -629,4 +629,32 @@ theorem runOps_spec (ops : List Op) : BST (runOps ops) ∧ toList (runOps ops) =
       exact ih _ _ c (by rw [d, b])
   exact key nil [] (by simp [BST, Sorted, toList]) rfl
 
+/-! ### a consumer that stops early sees a prefix -/
+
+theorem walkN_eq (p : Bytes) (fuel n : Nat) (hn : 1 ≤ n) (s : List Tree) :
+    walkN p fuel n s = (walk p fuel s).take n := by
+  induction fuel generalizing n s with
+  | zero => simp [walkN, walk]
+  | succ fuel ih =>
+    cases s with
+    | nil => simp [walkN, walk]
+    | cons t s =>
+      cases t with
+      | nil => simp only [walkN, walk]; exact ih n hn s
+      | node l k v rk r =>
+        simp only [walkN, walk]
+        by_cases hk : Bytes.hasPrefix k p = true
+        · rw [if_pos hk, if_pos hk]
+          by_cases h1 : n ≤ 1
+          · rw [if_pos h1]
+            have : n = 1 := by omega
+            subst this; simp
+          · rw [if_neg h1, ih (n - 1) (by omega)]
+            have : n = (n - 1) + 1 := by omega
+            rw [this, List.take_succ_cons]; simp
+        · rw [if_neg hk, if_neg hk]; simp
+
+theorem ascendPrefixN_eq (t : Tree) (p : Bytes) (n : Nat) (hn : 1 ≤ n) :
+    ascendPrefixN t p n = (ascendPrefix t p).take n := walkN_eq p _ n hn _
+
 end Rxn.ZipTree
